@@ -124,6 +124,7 @@ type recRunner struct {
 	w       uint32
 	scanned int32 // height up to which the wallet has scanned
 	hypOK   bool  // the look-ahead hypothesis held for every block scanned so far
+	tainted bool  // an injected FilterBlocks failure fired (in-process retry): the rest of the case is not compared
 	paidMax map[[2]int]int
 }
 
@@ -154,6 +155,9 @@ func (r *recRunner) branchState() string {
 
 func (r *recRunner) Exec(op string) (string, string) {
 	kind, kv := core.KV(op)
+	if r.tainted && kind != "rinit" && strings.HasPrefix(kind, "r") {
+		return "tainted", ""
+	}
 	switch kind {
 	case "bnew":
 		r.brW = uint32(atoi(kv["w"]))
@@ -220,7 +224,7 @@ func (r *recRunner) Exec(op string) (string, string) {
 		for _, s := range core.CSV(kv["scopes"]) {
 			r.scopes = append(r.scopes, atoi(s))
 		}
-		r.txs, r.order, r.nextBlk, r.scanned, r.hypOK = map[int]*rTx{}, nil, 1, 0, true
+		r.txs, r.order, r.nextBlk, r.scanned, r.hypOK, r.tainted = map[int]*rTx{}, nil, 1, 0, true, false
 		r.paidMax = map[[2]int]int{}
 		return "ok", ""
 	case "rblk":
@@ -380,6 +384,14 @@ func (r *recRunner) syncAndReport(kv map[string]string, ctx string) (string, str
 		}
 	}
 	r.scanned = tip
+	r.env.fc.mu.Lock()
+	fired := r.env.fc.filterFailAt != 0 && r.env.fc.filterCalls >= r.env.fc.filterFailAt
+	r.env.fc.mu.Unlock()
+	if fired {
+		// syncWithChain failed once and was retried in-process by waitForSync
+		r.tainted = true
+		return "retried-after-failure", r.oracle("retry-after-failed-batch")
+	}
 	return r.state(), r.oracle(ctx)
 }
 
@@ -506,6 +518,16 @@ func (r *recRunner) state() string {
 // oracle: ground truth computed from the script alone (C16 "complete"), only when the look-ahead hypothesis held
 // for every scanned block.
 func (r *recRunner) oracle(ctx string) string {
+	v := r.oracle1(ctx)
+	if ctx == "retry-after-failed-batch" {
+		// one stable key prefix for the known consequence of the in-memory/disk desync
+		v = strings.ReplaceAll(v, "."+ctx+":", ":")
+		v = strings.ReplaceAll(v, "C16 key=", "C16 key="+ctx+".")
+	}
+	return v
+}
+
+func (r *recRunner) oracle1(ctx string) string {
 	if !r.hypOK {
 		return ""
 	}
@@ -707,7 +729,7 @@ func (recEngine) Generate(rng *rand.Rand, tier string) []core.Case {
 		}
 	}
 	// batch boundary: > 2000 blocks, payments on both sides of the boundary, failure in the second batch
-	nLong := 1
+	nLong := 2
 	if thorough {
 		nLong = 4
 	}
@@ -858,7 +880,10 @@ func genChain(rng *rand.Rand, gt int64, w, nBlocks int, long bool, c int) core.C
 		tags = append(tags, "filterblocks-failure")
 	}
 	if long {
-		fail = 4 + rng.Intn(4)
+		fail = 0
+		if c > 0 {
+			fail = 4 + rng.Intn(4)
+		}
 		tags = append(tags, "batch-boundary")
 	}
 	ops = append(ops, fmt.Sprintf("rrecover w=%d locked=%d failat=%d", w, rng.Intn(2), fail))
